@@ -293,7 +293,8 @@ Section Rules.
      - FastCallAttr: the CALL operands fit the 16-bit halves of joinParams;
      - PUSH n; ADD -> INCDEC n: n >= 0, or the operand is a typed integer and n > -2^31;
      - PUSH n; SUB -> INCDEC (-n): 0 < n <= MaxInt64, or the operand is a typed integer and -2^31 < n <= 0
-       (n = 0 on the float64 -0.0 is a genuine difference: -0.0 - 0 = -0.0 but incDec(0) = -0.0 + 0 = +0.0). *)
+       (n = 0 on the float64 -0.0 would be a genuine difference: -0.0 - 0 = -0.0 but incDec(0) = -0.0 + 0 = +0.0;
+       the generated rule excludes n = 0 by its own side condition, so that window is not fused). *)
   Definition guard (r : rule) (w : list instr) (slots ops : list value) : bool :=
     let f := fused r w in
     match guard_kind r with
@@ -763,6 +764,95 @@ Qed.
 (* unconditional form *)
 Corollary do_optimize_rel' : forall code, opt_rel peephole_rules code (do_optimize peephole_rules code).
 Proof. intro code. apply do_optimize_rel, rules_nonempty. Qed.
+
+(* ---------- the link between the optimizer's shape (opt_rel) and the rule theorem (c02_rule_sound) ----------
+   opt_rel / do_optimize compute [rule_matches r code] and [fused r code] on the whole remaining SUFFIX [code], while
+   c02_rule_sound speaks about windows of length exactly [rule_len r].  The two fit together because every rule of the
+   generated table only looks at window positions < rule_len r (rule_closed: decidable, evaluated on the table
+   regenerated from compiler.go on every run). *)
+Fixpoint operand_in (n : nat) (o : operand) : bool :=
+  match o with
+  | OZero => true | OField k _ => Nat.ltb k n | ONeg o' => operand_in n o' | OJoin a b => operand_in n a && operand_in n b
+  end.
+Definition cond_in (n : nat) (c : cond) : bool :=
+  match c with CSame i _ j _ => Nat.ltb i n && Nat.ltb j n | CConst i _ _ => Nat.ltb i n | CNotConst i _ _ => Nat.ltb i n end.
+Definition rule_closed (r : rule) : bool :=
+  let n := rule_len r in
+  forallb (cond_in n) (r_conds r) && operand_in n (r_A r) && operand_in n (r_B r) && operand_in n (r_C r) && Nat.ltb (r_pos r) n.
+Lemma rules_closed : forallb rule_closed peephole_rules = true. Proof. vm_compute. reflexivity. Qed.
+
+Lemma ws_win_firstn n : forall k code, (k < n)%nat -> win (firstn n code) k = win code k.
+Proof.
+  unfold win. induction n as [|n IH]; intros k code H; [lia|].
+  destruct code as [|i rest]; [destruct k; reflexivity|]. destruct k as [|k]; [reflexivity|]. cbn. apply IH. lia.
+Qed.
+Lemma ws_eval_operand_firstn n code o : operand_in n o = true -> eval_operand (firstn n code) o = eval_operand code o.
+Proof.
+  induction o as [|k f|o IH|a IHa b IHb]; cbn; intro H.
+  - reflexivity.
+  - apply Nat.ltb_lt in H. rewrite ws_win_firstn by assumption. reflexivity.
+  - rewrite IH by assumption. reflexivity.
+  - apply andb_true_iff in H. destruct H. rewrite IHa, IHb by assumption. reflexivity.
+Qed.
+Lemma ws_cond_ok_firstn n code c : cond_in n c = true -> cond_ok (firstn n code) c = cond_ok code c.
+Proof.
+  destruct c; cbn; intro H; try (apply andb_true_iff in H; destruct H as [H H']; apply Nat.ltb_lt in H');
+    apply Nat.ltb_lt in H; rewrite ?ws_win_firstn by assumption; reflexivity.
+Qed.
+Lemma ws_codes_match_firstn names : forall code, codes_match names (firstn (List.length names) code) = codes_match names code.
+Proof.
+  induction names as [|n ns IH]; intro code; [reflexivity|].
+  destruct code as [|i rest]; [reflexivity|]. cbn. rewrite IH. reflexivity.
+Qed.
+Lemma ws_codes_match_len names : forall code, codes_match names code = true -> (List.length names <= List.length code)%nat.
+Proof.
+  induction names as [|n ns IH]; intros code H; cbn; [lia|].
+  destruct code as [|i rest]; [discriminate|]. cbn in H. apply andb_true_iff in H. destruct H as [_ H]. apply IH in H. cbn. lia.
+Qed.
+
+(* a rule that matches the suffix [code] matches the window [firstn (rule_len r) code], which has exactly the rule's
+   length, and fuses it into the same instruction *)
+Theorem window_of_suffix : forall r, In r peephole_rules -> forall code, rule_matches r code = true ->
+  let w := firstn (rule_len r) code in
+  List.length w = rule_len r /\ rule_matches r w = true /\ fused r w = fused r code.
+Proof.
+  intros r Hr code Hm w.
+  pose proof (proj1 (forallb_forall _ _) rules_closed r Hr) as Hc. unfold rule_closed in Hc.
+  repeat (apply andb_true_iff in Hc; let H := fresh "Hc" in destruct Hc as [Hc H]).
+  unfold rule_matches in Hm. apply andb_true_iff in Hm. destruct Hm as [Hm1 Hm2].
+  split; [|split].
+  - subst w. unfold rule_len. apply firstn_length_le, ws_codes_match_len, Hm1.
+  - unfold rule_matches. subst w. unfold rule_len at 1. rewrite ws_codes_match_firstn, Hm1. cbn [andb].
+    rewrite forallb_forall in *. intros c Hin. rewrite ws_cond_ok_firstn by (apply Hc; assumption). apply Hm2, Hin.
+  - unfold fused. subst w. rewrite !ws_eval_operand_firstn by assumption.
+    rewrite ws_win_firstn by (apply Nat.ltb_lt; assumption). reflexivity.
+Qed.
+Lemma first_match_matches rs : forall w r, first_match rs w = Some r -> rule_matches r w = true.
+Proof.
+  induction rs as [|r0 rs IH]; cbn; intros w r H; [discriminate|].
+  destruct (rule_matches r0 w) eqn:E; [injection H as <-; exact E | apply IH, H].
+Qed.
+
+(* every fusion step of the optimizer (constructor opt_fuse of opt_rel: first_match peephole_rules code = Some r, the
+   window firstn (rule_len r) code is replaced by fused r code) satisfies every premise of c02_rule_sound except
+   possibly the guard; under the guard it is an instance of it *)
+Theorem shape_meets_rules : forall grow ext_get ext_set ext_len ext_getattr ext_setattr,
+  (forall s r k k', vnum k = vnum k' -> vval k = vval k' -> ext_get s r k = ext_get s r k') ->
+  (forall s r k k' v, vnum k = vnum k' -> vval k = vval k' -> ext_set s r k v = ext_set s r k' v) ->
+  forall code r, first_match peephole_rules code = Some r ->
+  let w := firstn (rule_len r) code in
+  In r peephole_rules /\ List.length w = rule_len r /\ rule_matches r w = true /\ fused r w = fused r code /\
+  forall codes pc pc' slots ops s, guard r w slots ops = true ->
+    sres_equiv (run_window grow ext_get ext_set ext_len ext_getattr ext_setattr codes pc w slots ops s)
+               (step1 grow ext_get ext_set ext_len ext_getattr ext_setattr codes pc' (fused r code) slots ops s).
+Proof.
+  intros grow ext_get ext_set ext_len ext_getattr ext_setattr Hg Hs code r H w.
+  pose proof (first_match_In _ _ _ H) as Hin. pose proof (first_match_matches _ _ _ H) as Hm.
+  destruct (window_of_suffix r Hin code Hm) as (Hl & Hmw & Hf).
+  split; [exact Hin|]. split; [exact Hl|]. split; [exact Hmw|]. split; [exact Hf|].
+  intros codes pc pc' slots ops s G. rewrite <- Hf.
+  exact (c02_rule_sound grow ext_get ext_set ext_len ext_getattr ext_setattr Hg Hs r Hin _ Hl Hmw codes pc pc' slots ops s G).
+Qed.
 
 Print Assumptions c02_rule_sound.
 Print Assumptions c02_rule_sound_ieee.
